@@ -222,26 +222,25 @@ Proof.
 Qed.
 
 (* parseClass *)
-Lemma lex_class_lt fold s b t c rest : s = b :: t -> lex_class fold s = Ok (c, rest) -> (length rest < length s)%nat.
+Lemma lex_class_lt fuel fold s b t c rest : s = b :: t -> lex_class fuel fold s = Ok (c, rest) -> (length rest < length s)%nat.
 Proof.
   intros Es. unfold lex_class. rewrite Es. cbn [tl].
-  assert (H : forall t0, (length t0 <= length t)%nat ->
-            match class_loop (S (length t0)) fold t0 true [] with
-            | Ok (class, rest) => Ok (clean_class (cb_done class), rest) : res (cls * str)
-            | Err e => Err e | OutOfFuel => OutOfFuel end = Ok (c, rest) \/ True -> True) by trivial. clear H.
   destruct (match t with c0 :: t' => if c0 =? 94 then (true, t') else (false, t) | [] => (false, t) end) as [ng t0] eqn:E.
   assert (Hle : (length t0 <= length t)%nat).
   { destruct t as [|c0 t']; [injection E as _ <-; lia|]. destruct (c0 =? 94); injection E as _ <-; cbn [length]; lia. }
-  destruct (class_loop (S (length t0)) fold t0 true []) as [[class rest0]| |] eqn:Hl; try discriminate.
+  destruct (class_loop fuel fold t0 true []) as [[class rest0]| |] eqn:Hl; try discriminate.
   apply class_loop_lt in Hl. intros H. injection H as _ <-. cbn [length]. lia.
 Qed.
 
-Lemma lex_class_fuel fold s : lex_class fold s <> OutOfFuel.
+Lemma lex_class_fuel fuel fold s : (length (tl s) < fuel)%nat -> lex_class fuel fold s <> OutOfFuel.
 Proof.
-  unfold lex_class.
-  destruct (match tl s with c0 :: t' => if c0 =? 94 then (true, t') else (false, tl s) | [] => (false, tl s) end) as [ng t0].
-  destruct (class_loop (S (length t0)) fold t0 true []) as [[class rest0]| |] eqn:Hl; try discriminate.
-  exact (fun _ => class_loop_fuel _ _ _ _ _ (Nat.lt_succ_diag_r _) Hl).
+  intros Hf. unfold lex_class.
+  destruct (match tl s with c0 :: t' => if c0 =? 94 then (true, t') else (false, tl s) | [] => (false, tl s) end) as [ng t0] eqn:E.
+  assert (Hle : (length t0 <= length (tl s))%nat).
+  { destruct (tl s) as [|c0 t']; [injection E as _ <-; lia|]. destruct (c0 =? 94); injection E as _ <-; cbn [length]; lia. }
+  destruct (class_loop fuel fold t0 true []) as [[class rest0]| |] eqn:Hl; try discriminate.
+  assert (Hlt : (length t0 < fuel)%nat) by lia.
+  exact (fun _ => class_loop_fuel fuel fold t0 true [] Hlt Hl).
 Qed.
 
 (* parsePerlFlags *)
@@ -336,7 +335,7 @@ Proof.
 Qed.
 
 (* one turn of the parse loop reads at least one byte *)
-Theorem lex_lt f b t' tok rest : lex f b t' = Ok (tok, rest) -> (length rest <= length t')%nat.
+Theorem lex_lt fuel f b t' tok rest : lex fuel f b t' = Ok (tok, rest) -> (length rest <= length t')%nat.
 Proof.
   unfold lex. cbv zeta.
   assert (Hlazy : forall after x r, match after with c :: a => if c =? 63 then (true, a) else (false, after) | [] => (false, after) end = (x, r)
@@ -349,8 +348,8 @@ Proof.
     intros H. apply (lex_perl_flags_lt _ _ b c t'' _ _ eq_refl) in H. cbn [length] in *. lia. }
   repeat (match goal with |- (if ?c then _ else _) = _ -> _ => destruct c eqn:? end;
           [try (intros H; injection H as _ <-; lia)|]).
-  - (* [ *) destruct (lex_class _ _) as [[c rest0]| |] eqn:Hc; try discriminate.
-    apply (lex_class_lt _ _ b t' _ _ eq_refl) in Hc. intros H. injection H as _ <-. cbn [length] in Hc. lia.
+  - (* [ *) destruct (lex_class _ _ _) as [[c rest0]| |] eqn:Hc; try discriminate.
+    apply (lex_class_lt _ _ _ b t' _ _ eq_refl) in Hc. intros H. injection H as _ <-. cbn [length] in Hc. lia.
   - (* * + ? *) destruct t' as [|c a]; [|destruct (c =? 63)]; cbv beta iota zeta; intros H; injection H as _ <-; cbn [length]; lia.
   - (* { *) destruct (parse_repeat t') as [[[mn mx] after]|] eqn:Hr; [|intros H; injection H as _ <-; lia].
     apply parse_repeat_le in Hr. match goal with |- (if ?c then _ else _) = _ -> _ => destruct c end; [discriminate|].
@@ -374,12 +373,12 @@ Proof.
     apply next_rune_lt in Hn; [|discriminate]. intros H. injection H as _ <-. cbn [length] in Hn. lia.
 Qed.
 
-Theorem lex_fuel f b t' : lex f b t' <> OutOfFuel.
+Theorem lex_fuel fuel f b t' : (length t' < fuel)%nat -> lex fuel f b t' <> OutOfFuel.
 Proof.
-  unfold lex. cbv zeta.
+  intros Hfuel. unfold lex. cbv zeta.
   destruct (b =? 40). { destruct t' as [|c t'']; [discriminate|]. destruct (c =? 63); [apply lex_perl_flags_fuel|discriminate]. }
   repeat (match goal with |- (if ?c then _ else _) <> _ => destruct c eqn:? end; [try discriminate|]).
-  - destruct (lex_class _ _) as [[c rest0]| |] eqn:Hc; try discriminate. exact (fun _ => lex_class_fuel _ _ Hc).
+  - destruct (lex_class _ _ _) as [[c rest0]| |] eqn:Hc; try discriminate. exact (fun _ => lex_class_fuel fuel _ (b :: t') Hfuel Hc).
   - match goal with |- (let '(_, _) := ?x in _) <> _ => destruct x end. discriminate.
   - destruct (parse_repeat t') as [[[mn mx] after]|]; [|discriminate]. match goal with |- (if ?c then _ else _) <> _ => destruct c end; [discriminate|].
     match goal with |- (let '(_, _) := ?x in _) <> _ => destruct x end. discriminate.
@@ -470,11 +469,11 @@ Proof.
   destruct (b =? 93); [exact Hrange|exact Hnamed].
 Qed.
 
-Lemma lex_class_internal fold s : lex_class fold s <> Err ErrInternal.
+Lemma lex_class_internal fuel fold s : lex_class fuel fold s <> Err ErrInternal.
 Proof.
   unfold lex_class.
   destruct (match tl s with c0 :: t' => if c0 =? 94 then (true, t') else (false, tl s) | [] => (false, tl s) end) as [ng t0].
-  destruct (class_loop (S (length t0)) fold t0 true []) as [[class rest0]| |] eqn:Hl; try discriminate.
+  destruct (class_loop fuel fold t0 true []) as [[class rest0]| |] eqn:Hl; try discriminate.
   exact (err_internal_of _ _ Hl (class_loop_internal _ _ _ _ _)).
 Qed.
 
@@ -506,12 +505,12 @@ Proof.
   - destruct (c2 =? 60); [apply Hnamed|apply flags_loop_internal].
 Qed.
 
-Theorem lex_internal f b t' : lex f b t' <> Err ErrInternal.
+Theorem lex_internal fuel f b t' : lex fuel f b t' <> Err ErrInternal.
 Proof.
   unfold lex. cbv zeta.
   destruct (b =? 40). { destruct t' as [|c t'']; [discriminate|]. destruct (c =? 63); [apply lex_perl_flags_internal|discriminate]. }
   repeat (match goal with |- (if ?c then _ else _) <> _ => destruct c eqn:? end; [try discriminate|]).
-  - destruct (lex_class _ _) as [[c rest0]| |] eqn:Hc; try discriminate. exact (err_internal_of _ _ Hc (lex_class_internal _ _)).
+  - destruct (lex_class _ _ _) as [[c rest0]| |] eqn:Hc; try discriminate. exact (err_internal_of _ _ Hc (lex_class_internal _ _ _)).
   - match goal with |- (let '(_, _) := ?x in _) <> _ => destruct x end. discriminate.
   - destruct (parse_repeat t') as [[[mn mx] after]|]; [|discriminate]. match goal with |- (if ?c then _ else _) <> _ => destruct c end; [discriminate|].
     match goal with |- (let '(_, _) := ?x in _) <> _ => destruct x end. discriminate.
